@@ -160,7 +160,7 @@ func runC04(c *Ctx) {
 				// size hints never panic for negative values; huge hints allocate
 			case ssa.CallInstruction:
 				tf := staticFn(x)
-				if tf == nil || tf.Blocks == nil || w.depth >= 3 {
+				if tf == nil || tf.Blocks == nil || w.depth >= 3 || tf.Pkg == nil || !isFirstParty(tf.Pkg.Pkg.Path()) {
 					return
 				}
 				sub := map[*ssa.Parameter]bool{}
@@ -297,6 +297,32 @@ func runC04(c *Ctx) {
 			// loop counters that start at len-1/len and count down with an i >= 0 / i > 0 condition are covered by the same comparison forms
 			c.verdict(key, i.Pos(), okp, "guarded by a lower-bound test on the index base", "index "+valName(x)+fmt.Sprintf("-%d", k)+" without a dominating lower-bound test: a TOC/reply that makes the search return 0 panics with index out of range: "+c.pathStr(f, path))
 		})
+	}
+
+	if c.Tier == "thorough" {
+		// informational only: cycles that appear when interface dispatch is resolved with VTA. VTA merges all
+		// instances of one type (e.g. the memory writer's Commit calling the file writer's Commit), so these are
+		// listed in the evidence as a cross-reference and never decide the verdict.
+		vg := c.vtaGraph()
+		static := map[string]bool{}
+		for _, comp := range c.sccs(g) {
+			for _, f := range comp {
+				static[c.fnKey(f)] = true
+			}
+		}
+		for _, comp := range c.sccs(vg) {
+			var names []string
+			extra := false
+			for _, f := range comp {
+				names = append(names, c.fnKey(f))
+				if !static[c.fnKey(f)] {
+					extra = true
+				}
+			}
+			if extra && inScope2(comp) {
+				c.note("VTA-only cycle (cross-reference, not a verdict): " + strings.Join(names, " "))
+			}
+		}
 	}
 
 	// ---- C04.d ----
